@@ -160,6 +160,164 @@ def membership_test(crate, b, atom):
     return None
 
 
+PARTITION_VIEWS = ("deref", "as_ref", "borrow", "as_str", "clone", "to_string", "to_owned", "into", "from", "as_deref", "borrowed", "into_owned")
+PARTITION_MODELS = [   # (encoded parameters, declared safe list) — small models: empty / subset / superset / unsorted / repeated / prefix names
+    ({"a": "va", "b": "vb"}, []), ({"a": "va", "b": "vb"}, ["a"]), ({"a": "va", "b": "vb"}, ["b"]), ({"a": "va", "b": "vb"}, ["a", "b"]), ({"a": "va", "b": "vb"}, ["b", "a"]),
+    ({"a": "va", "b": "vb"}, ["c"]), ({"a": "va"}, ["c", "a", "a"]), ({"a": "va", "ab": "vab"}, ["ab"]), ({"ab": "vab", "b": "vb"}, ["a", "b"]), ({}, ["a"]),
+    ({"a": "va", "b": "vb", "c": "vc"}, ["c", "a"]), ({"b": "vb"}, ["a", "b", "c"]),
+]
+
+
+def partition_table(ctx, F, ce, b):
+    """R17.2 by interpretation over small models: the builder is run (minterp; private helpers, closures and combinators
+    interpreted) on concrete parameter maps and safe lists, with the std collections it uses modelled on a little heap
+    (maps, slices and their iterators); the safe_params / unsafe_params of the error it returns are compared with
+    `parameter listed in safe_args` / the rest.  -> True when every model stayed inside the interpretable fragment."""
+    import itertools
+    from .. import minterp
+    OPT = "core::option::Option"
+    MAPS = ("std::collections::hash::map::HashMap", "alloc::collections::btree::map::BTreeMap")
+
+    def skey(v):
+        while True:
+            if minterp.is_adt(v) and v[1].endswith("borrow::Cow") and v[3]:
+                v = v[3][0]
+                continue
+            if isinstance(v, tuple) and v and v[0] == "call" and v[1].split("::")[-1] in PARTITION_VIEWS and v[2]:
+                v = v[2][0]
+                continue
+            return v
+
+    def mentions(v, s):
+        if v == s:
+            return True
+        if isinstance(v, (list, tuple)):
+            return any(mentions(x, s) for x in v)
+        return False
+
+    def find_struct(v, heap):
+        if minterp.is_adt(v):
+            a_ = F.adt(v[1])
+            if a_ and a_["kind"] == "struct":
+                names = [f_["name"] for f_ in a_["variants"][0]["fields"]]
+                if "safe_params" in names and "unsafe_params" in names:
+                    return {k: v[3][names.index(k)] for k in ("safe_params", "unsafe_params")}
+            for x in v[3]:
+                r = find_struct(x, heap)
+                if r:
+                    return r
+        if isinstance(v, tuple) and v and v[0] == "tuple":
+            for x in v[1]:
+                r = find_struct(x, heap)
+                if r:
+                    return r
+        return None
+    bad, done = [], 0
+    for params, safe in PARTITION_MODELS:
+        heap = {}
+        cnt = itertools.count()
+
+        def new(kind, val, heap=heap, cnt=cnt):
+            k = next(cnt)
+            heap[k] = val
+            return (kind, k)
+        P = new("map", dict(params))
+
+        def oracle(f, argv, heap=heap, new=new, P=P):
+            n, dd = f.get("name"), f.get("def", "")
+            if n == "parameters" and "SerializableError" in dd:
+                return P
+            if n in ("new", "with_capacity") and any(m.rsplit("::", 1)[-1] in dd for m in MAPS) and (not argv or n == "with_capacity"):
+                return new("map", {})
+            if n == "default" and f.get("substs") and ty_adt(f["substs"][0]) in MAPS:
+                return new("map", {})
+            if n == "new" and dd.startswith("alloc::boxed::Box") and argv:
+                return argv[0]
+            if n in ("into_iter", "iter", "iter_mut", "by_ref", "copied", "cloned", "into_keys", "keys") and argv:
+                a = argv[0]
+                if isinstance(a, tuple) and a and a[0] == "map":
+                    return new("iter", [k for k, v in sorted(heap[a[1]].items())] if n in ("keys", "into_keys") else [("tuple", [k, v]) for k, v in sorted(heap[a[1]].items())])
+                if isinstance(a, tuple) and a and a[0] == "array":
+                    return new("iter", list(a[1]))
+                if isinstance(a, tuple) and a and a[0] == "iter":
+                    return a
+            if n == "collect" and argv and isinstance(argv[0], tuple) and argv[0] and argv[0][0] == "iter" and argv[0][1] in heap:
+                items_ = list(heap[argv[0][1]])
+                heap[argv[0][1]] = []
+                tgt_ = tystr(f["substs"][-1]) if f.get("substs") else ""
+                if ("HashMap" in tgt_ or "BTreeMap" in tgt_) and all(isinstance(x_, tuple) and x_ and x_[0] == "tuple" for x_ in items_):
+                    return new("map", {skey(x_[1][0]): x_[1][1] for x_ in items_})
+                return new("coll", items_)
+            if argv and isinstance(argv[0], tuple) and argv[0] and argv[0][0] == "coll" and argv[0][1] in heap:
+                l_ = heap[argv[0][1]]
+                if n in ("contains", "contains_key") and len(argv) == 2:
+                    return skey(argv[1]) in [skey(x_) for x_ in l_]
+                if n == "binary_search" and len(argv) == 2:
+                    raise minterp.Unsupported("binary_search")
+                if n == "len":
+                    return len(l_)
+                if n == "is_empty":
+                    return not l_
+                if n in ("iter", "into_iter"):
+                    return new("iter", list(l_))
+                if n in ("reserve", "shrink_to_fit"):
+                    return ("tuple", [])
+            if n in ("reserve", "shrink_to_fit") and argv and isinstance(argv[0], tuple) and argv[0] and argv[0][0] == "map":
+                return ("tuple", [])
+            if n == "next" and argv and isinstance(argv[0], tuple) and argv[0] and argv[0][0] == "iter":
+                l = heap[argv[0][1]]
+                return minterp.adt(OPT, 1, [l.pop(0)]) if l else minterp.adt(OPT, 0, [])
+            if n == "contains" and len(argv) == 2 and isinstance(argv[0], tuple) and argv[0] and argv[0][0] == "array":
+                return skey(argv[1]) in [skey(x) for x in argv[0][1]]
+            if n in ("len", "is_empty") and argv and isinstance(argv[0], tuple) and argv[0] and argv[0][0] == "array":
+                return len(argv[0][1]) if n == "len" else not argv[0][1]
+            if argv and isinstance(argv[0], tuple) and argv[0] and argv[0][0] == "map":
+                m = heap[argv[0][1]]
+                if n == "insert" and len(argv) == 3:
+                    k = skey(argv[1])
+                    old = m.get(k)
+                    m[k] = argv[2]
+                    return minterp.adt(OPT, 1, [old]) if old is not None else minterp.adt(OPT, 0, [])
+                if n == "contains_key" and len(argv) == 2:
+                    return skey(argv[1]) in m
+                if n == "get" and len(argv) == 2:
+                    k = skey(argv[1])
+                    return minterp.adt(OPT, 1, [m[k]]) if k in m else minterp.adt(OPT, 0, [])
+                if n == "get_key_value" and len(argv) == 2:
+                    k = skey(argv[1])
+                    return minterp.adt(OPT, 1, [("tuple", [k, m[k]])]) if k in m else minterp.adt(OPT, 0, [])
+                if n == "remove" and len(argv) == 2:
+                    k = skey(argv[1])
+                    return minterp.adt(OPT, 1, [m.pop(k)]) if k in m else minterp.adt(OPT, 0, [])
+                if n == "len":
+                    return len(m)
+                if n == "is_empty":
+                    return not m
+            return minterp.NO_VALUE
+        I = minterp.Interp(F, ce, inline=lambda d_, rid: True, max_depth=4)
+        I.call_oracle = oracle
+        args = [("array", list(safe)) if tystr(b.local_ty(k)) in ("&[&str]", "&&[&str]") else ("sym", f"a{k}") for k in range(1, b.argc + 1)]
+        try:
+            r = I.run(b, args)
+        except minterp.Unsupported as e:
+            ctx.note(f"R17.2 {b.id}: small-model table not available ({e}); decided by the structural forms")
+            return False
+        st = find_struct(r, heap)
+        if not st or not all(isinstance(st[k], tuple) and st[k] and st[k][0] == "map" for k in st):
+            ctx.note(f"R17.2 {b.id}: small-model table not available (the returned error's parameter maps are not values of the model: {repr(st)[:120]}); decided by the structural forms")
+            return False
+        got = {k: heap[st[k][1]] for k in st}
+        want_safe = {k for k in params if k in safe}
+        ok = set(got["safe_params"]) == want_safe and set(got["unsafe_params"]) == set(params) - want_safe \
+            and all(mentions(v, params[k]) and not any(mentions(v, pv) for pk, pv in params.items() if pk != k) for m_ in got.values() for k, v in m_.items() if k in params)
+        done += 1
+        if not ok:
+            bad.append(f"parameters {sorted(params)} with safe list {safe}: safe_params = {sorted(map(str, got['safe_params']))}, unsafe_params = {sorted(map(str, got['unsafe_params']))}; specification: safe = {sorted(want_safe)}, unsafe = {sorted(set(params) - want_safe)}, each with its own value")
+    ctx.check(not bad, "R17.2", b.loc(), f"{b.id}|partition-table", f"{b.id}: every encoded parameter must land in exactly one of safe_params / unsafe_params — safe exactly when the safe list names it: " + "; ".join(bad[:3]),
+              instance=f"{b.id}: partition over {done} small models (parameter maps x safe lists, unsorted / repeated / prefix names included) = specification")
+    return True
+
+
 def run(ctx):
     ctx.explanation = EXPLANATION
     ctx.assumptions = ["serde's Visitor defaults reject unvisited kinds and widen narrower integers/floats to i64/u64/f64 (documented)",
@@ -216,6 +374,11 @@ def run(ctx):
         ff = final_fields(eb)
         if len(ff) == 2:
             builders.append((eb, ff))
+    table_ok = False
+    if len(builders) == 1:
+        raw = [x for x in cands if x.id == builders[0][0].id] or [x for x in cands]
+        if len(raw) == 1:
+            table_ok = partition_table(ctx, F, ce, raw[0])
     if len(builders) != 1:
         ctx.violation("R17.2", "conjure_error", "anchor|service-builder", f"expected one private function taking the safe-argument list and producing both safe_params and unsafe_params, found {len(builders)}")
     else:
@@ -226,6 +389,8 @@ def run(ctx):
         inserts = [(bb, t) for bb, t in b.calls() if t["call"]["name"] == "insert" and "HashMap" in t["call"]["def"] or t["call"]["name"] == "insert" and "BTreeMap" in t["call"]["def"]]
         seen = {}
         parts = [(bb, t) for bb, t in b.calls() if t["call"]["def"] == "core::iter::traits::iterator::Iterator::partition"]
+        if table_ok:
+            inserts, parts = [], []      # decided by the small-model table above; the structural forms are the fallback
         if not inserts and len(parts) == 1:
             # form P: (safe, unsafe) = params.map(..).partition(|(name, _)| name in safe_args)
             pbb, pt = parts[0]
@@ -301,7 +466,7 @@ def run(ctx):
             ctx.check(ok, "R17.2", b.loc(t["ln"]), f"{b.id}|insert|{which[0] if which else '?'}",
                       f"{b.id}: insert into the map stored in `{which[0] if which else '?'}` is on the {'true' if pol else 'false' if pol is not None else 'unknown'} edge of the safe-argument membership test; safe_params must be filled exactly when safe_args contains the key, unsafe_params otherwise",
                       instance=f"insert into {which[0] if which else '?'} on contains(key) == {pol}")
-        ctx.check(set(seen) == {"safe_params", "unsafe_params"} and seen["safe_params"][0] == seen["unsafe_params"][0], "R17.2", b.loc(), f"{b.id}|exclusive",
+        ctx.check(table_ok or (set(seen) == {"safe_params", "unsafe_params"} and seen["safe_params"][0] == seen["unsafe_params"][0]), "R17.2", b.loc(), f"{b.id}|exclusive",
                   "the two inserts must be the two arms of one membership test (every parameter lands in exactly one set)", instance="safe/unsafe inserts are the two arms of one test")
         # ---------------- R17.3
         callers = [(x, bb, t) for x in ce.bodies for bb, t in x.calls() if t["call"].get("id") == b.id]
@@ -360,6 +525,9 @@ def run(ctx):
         ctx.violation("R17.4", "conjure_error", "anchor|encode", "pub fn encode not found")
     else:
         b = enc[0]
+        # (encode may forward to a more general sibling in the same file — `encode_with(error, Uuid::new_v4)` — which is read instead)
+        from .. import inline as _inl17
+        b = _inl17.expand(ce, b, depth=2, pred=lambda cb, f_=b.file: cb.kind == "fn" and cb.file == f_ and cb.name != "encode")
         cfg = CFG(b)
         tr = Tracer(b, through_calls=True)
         for getter, setter in (("code", "error_code"), ("name", "error_name"), ("instance_id", "error_instance_id")):
@@ -543,6 +711,13 @@ def run(ctx):
         chains = []
         for k in vec_locals:
             chains += element_chains(gb, {"cp": k})
+        if not chains:
+            # the list is resolved in another function of the file and handed over in a struct: the vector of that name there
+            for ob_ in cg.bodies:
+                if ob_.kind == "fn" and ob_.id.startswith("conjure_codegen::errors::") and ob_.id != gb.id:
+                    for k, l in enumerate(ob_.d["locals"]):
+                        if l.get("n") == var and ty_adt(l.get("ty") or {}) == "alloc::vec::Vec":
+                            chains += element_chains(ob_, {"cp": k})
         ok = bool(chains) and all(any(d.endswith("FieldDefinition::field_name") for d in ch) for ch in chains)
         foreign = sorted({d for ch in chains for d in ch if not (d.endswith("FieldDefinition::field_name") or d in Tracer.TRANSPARENT or d.endswith("::as_str") or d.endswith("safe_args")
                                                                or d.startswith("core::iter::") or d.startswith("core::slice::") or d == "<no call>" or d.startswith("core::option::"))})
